@@ -16,6 +16,10 @@ counts.  Its members are every way the framework knows to write that class down:
             groups of a single leaf or of nothing but another group included (mc.ref.hill.nestings): as a
             nested list, as a parsed string, as operators m*(f + n*(g + h)), and as operators with every
             operand observed (.atoms, .hill, str) before it is used
+    precise (blocks `precise`, `precise-sums`, `nested-precise`) counts that need all 17 significant digits of a
+            float (PRECISE: 1/3, 2/3, 0.1+0.2, 1e-3/7, 1e6/3, 123456789.123456789, 1e-12/3, 2**53-1) as leaf
+            counts and as group multipliers, through every route above; the texts that are parsed write
+            every count with the digits that read back as the same float
 The expected composition of a class is the check's OWN count of what it built (the entries of the class;
 for a nested tree: leaf count x the multipliers of ALL enclosing groups, exact Fractions, mc.ref.hill.totals)
 - never the library's .atoms.
@@ -26,9 +30,17 @@ Oracle per member f (h = f.hill):
         (otherwise the member was not built as intended - C01 / C02 - and is skipped, see below)
     (a) h.atoms == f.atoms, atoms compared as OBJECTS                      hill-atoms-differ[:cause]
     (a') the counts as listed in h.structure == the expected composition   hill-lists-other-counts-than-the-formula-has
+    (0), (a), (a') are decided twice: roughly (1e-12, the signatures above), then TO THE LAST DIGIT
+    (signature + :in-the-last-digits:total-of-one-term | total-up-to-rounding).  The exact total of an atom is
+    a Fraction (own counter).  A count of the Hill form that is bit for bit the formula's own count is right.
+    A total with ONE term and at most one rounded multiplication (at most two factors that are not powers of
+    two) has one float value in any order of operations: f.atoms, h.atoms and the listed count must be that
+    float.  Any other total (a sum of terms, a longer product) must be within 1e-15 relative of the exact one.
     (b) h is a flat list of distinct atoms in an order that breaks none of the rules of the
         statement (mc.ref.hill.must_precede; pairs the statement leaves open are not judged)
-    (c) canonicity: h == h0 and h0 == h and str(h) == str(h0) for the first member's h0
+    (c) canonicity: h == h0 and h0 == h and str(h) == str(h0) for h0 = the Hill form of the first member whose
+        .atoms are bit for bit the same ('two formulas with EQUAL atom counts'); two lists that differ only in
+        the last digits of totals that are not determined (sums) are not judged
     (d) idempotence: h.hill == h
     (e) once per class: the string written in the order of h0 (own printer), parsed, == its own
         Hill form (both directions of ==)
@@ -44,9 +56,16 @@ Blocks of classes:
              edited masses and densities - in all six orders (rotating with the class)
     tables   the main alphabet, n <= 2, on the same three tables in the same way
     nested   trees of 1-4 leaves with groups nested 2-3 deep (4 in the thorough tier), public table; the class
-             of a tree is the multiset of its own totals, its first member the flat spelling of the totals"""
+             of a tree is the multiset of its own totals, its first member the flat spelling of the totals
+    precise        the atoms C, D, Fe[56]{2+} x (PRECISE + {1, 2, 0.5}), classes of n <= 2 entries with at least
+                   one PRECISE count, every member as in main n <= 2, public table
+    precise-sums   C, D x {1/3, 2/3, 0.1+0.2}, n = 3: sums of three terms in every order and grouping
+    nested-precise one tree = one class (its totals are not floats): a leaf under 0-2 groups with every
+                   assignment of PRECISE + {3} to its positions; two / three leaves in every bracketing with
+                   every PRECISE value at every single position and at all positions at once"""
 import itertools
 import os
+from fractions import Fraction
 from ..common import Acc, load_pt, close, chunks, rotate, jdump, MachineryError
 from ..ref import hill as R
 
@@ -75,6 +94,19 @@ SPECIAL = [
     ("He", "He", 0, 0, False), ("Ta", "Ta", 0, 0, False), ("U", "U", 0, 0, False), ("O{2-}", "O", 0, -2, False),
 ]
 COUNTS = (1, 2, 0.5)
+# counts that need all 16-17 significant digits of a float: thirds, a sum with float noise, a seventh of a small
+# power of ten, a third of a large one, a nine-digit number with nine decimals, a tiny count (normal, and so
+# are its products up to four deep), and the largest odd integer a float holds.  (Some of their sums and
+# products are short again - 1/3 + 2/3, 3 * (1/3) - most are not.)
+PRECISE = (1 / 3., 2 / 3., 0.1 + 0.2, 1e-3 / 7, 1e6 / 3, 123456789.123456789, 1e-12 / 3, float(2 ** 53 - 1))
+PRECISE_TOKENS = ("C", "D", "Fe[56]{2+}")
+PRECISE_SUM_TOKENS = ("C", "D")
+PRECISE_SUM_COUNTS = PRECISE[:3]
+# a count that is determined only up to the rounding of the single operations (a sum of terms, a product of
+# three or more inexact factors) may differ from the exactly computed total by this much (relative): nine
+# roundings of 2**-53; the largest number of roundings one total goes through inside the bound is five (three
+# leaves of one atom under three multipliers: three products per leaf, two additions)
+REL_ROUNDING = Fraction(1, 10 ** 15)
 TOK = dict((a[0], a) for a in ALPHABET + SPECIAL)
 for _a in ALPHABET + SPECIAL:
     if TOK[_a[0]] != _a:
@@ -135,6 +167,21 @@ META = dict(
           "never the library's .atoms: a member whose .atoms differ from it although its structure, counted by "
           "the check's own counter, denotes the class is a violation of its own (atoms-differ-from-structure), "
           "and the counts listed in the Hill form are compared with the expected composition directly.  "
+          "PRECISE = the three blocks with counts that need all 17 significant digits (1/3, 2/3, 0.1+0.2, 1e-3/7, "
+          "1e6/3, 123456789.123456789, 1e-12/3, 2**53-1): `precise` = every class of n <= 2 entries over {C, D, "
+          "Fe[56]{2+}} x (the eight counts + {1, 2, 0.5}) that holds at least one of the eight, with every member "
+          "kind of MAIN n <= 2 (struct x groupings, parse, dict, four arithmetic spellings, formula(f), replace, "
+          "reused dict) and check (e) on the text with all digits; `precise-sums` = every class of n = 3 over "
+          "{C, D} x {1/3, 2/3, 0.1+0.2} (sums whose value depends on the order), every permutation x all 15 "
+          "groupings, flat parse, arithmetic, dict, derived, (e); `nested-precise` = trees: a single leaf of C, D, "
+          "Fe[56]{2+} under 0, 1, 2 groups with EVERY assignment of the eight counts + {3} to the leaf count and the "
+          "multipliers; two and three leaves in every bracketing of mc.ref.hill.nestings with the baseline "
+          "multiplier 3 or 0.5 at every group, and mc.ref.hill.placements: every one of the eight counts at every "
+          "single position (leaf count or multiplier), and all positions at once in eight rotations.  A tree is a "
+          "class of its own (members: flat list and dict of the correctly rounded exact totals, nested list, "
+          "operators, operators with observed operands, parsed text, and (e)).  In all blocks every count is now "
+          "also decided to the last digit (see assumptions): exact totals are Fractions from the check's own "
+          "counter; canonicity is demanded between members whose .atoms are bit for bit equal.  "
           "Atom counts are compared with the atoms as OBJECTS (an equal-looking atom of another table is another "
           "atom).  Distinct = distinct (class, table, member spelling).  Non-trivial = "
           "a member of a class with >= 2 distinct atoms (the sort has something to order)."),
@@ -156,7 +203,11 @@ META = dict(
                "O[18]0.5 at depth <= 3 with at least two nodes in every group (505 trees each: the trees operators "
                "build without collapsing).  Also parsed: one leaf: depth <= 2 all, depth 3 for the five spellings; "
                "two leaves depth <= 2: the three named pairs; the deep pairs and the triples: the trees whose "
-               "multipliers are all 2 or 0.5; the quadruples: all"),
+               "multipliers are all 2 or 0.5; the quadruples: all.  PRECISE: `precise` n <= 2 (24 + 516 classes), "
+               "`precise-sums` n = 3 (56 classes), `nested-precise`: one leaf x 3 atoms at depth <= 2 (all 819 "
+               "assignments each, those without one of the eight counts left out); two leaves C H2 and D D2 at depth "
+               "<= 3 (30 bracketings x baselines 3 and 0.5, 1440 placements each); three leaves C H2 C0.5 at depth <= 2 (70 "
+               "bracketings, baseline 3, 3864 placements): 12 072 trees, every one also parsed"),
         thorough=("MAIN: classes of n <= 4 entries.  n <= 3: struct (every permutation x all groupings), dict, arith, derived complete; "
                   "parse: n <= 2 complete, n = 3 every permutation flat for every class, every permutation x every "
                   "grouping for all-ones classes, every class once in Hill order.  n = 4: struct flat x every "
@@ -171,7 +222,11 @@ META = dict(
                   "six arrangements of the counts 1, 2, 0.5 and the three named triples at depth <= 2 (14809 trees "
                   "each), C H2 O[18]0.5 also at depth 3 with multipliers {2, 3, 0.5} (126 144 trees); four leaves "
                   "C H2 O0.5 D at depth <= 2 with multipliers {2, 3, 0.5} (69 115 trees); parsed: the trees with "
-                  "multipliers 2 / 0.5; the quadruples without single-node groups as in the quick tier")),
+                  "multipliers 2 / 0.5; the quadruples without single-node groups as in the quick tier.  PRECISE: "
+                  "`precise` and `precise-sums` as in the quick tier; `nested-precise`: one leaf at depth <= 3 (all "
+                  "7380 assignments per atom), the quick tier's families with both baselines, and Fe[56]{2+}2 Cl{-}0.5 at depth "
+                  "<= 3, D D2 D0.5 at depth <= 2, C H2 C0.5 at depth 3 (176 bracketings), each x baselines 3 and 0.5: "
+                  "71 280 trees, all parsed")),
     assumptions=[
         "'alphabetically by symbol' is read literally: the symbol of an atom is what it is written with, so D and T "
         "(= H[2], H[3], and their ions) are neither carbon nor hydrogen but 'other atoms' filed under 'D' and 'T': "
@@ -189,10 +244,26 @@ META = dict(
         "Hill's refinement 'without carbon everything is alphabetical' is not what the statement says (C first, H "
         "second, unconditionally)",
         "equality is Formula.__eq__ as documented (structure equality), evaluated in both directions",
-        "counts are dyadic rationals, so regrouped totals are exact; in the NESTED block the leaves keep their "
+        "outside the PRECISE blocks counts are dyadic rationals, so regrouped totals are exact; in the NESTED block the leaves keep their "
         "counts and the totals are products of them with multipliers from {1, 2, 3, 0.5}: small integers times "
         "powers of two, exact in binary floating point in any order of multiplication and addition (the check "
         "computes them as Fractions and refuses a total that is not a float); the comparison still allows 1e-12 relative",
+        "'exactly the same atom counts' is decided to the last digit, soundly for any order of floating-point "
+        "operations: (i) a count of the Hill form that is bit for bit the formula's own .atoms count is right; (ii) a "
+        "total with one term and at most two factors that are not powers of two is ONE correctly rounded "
+        "multiplication however it is carried out (powers of two only move the exponent; no total of the bound "
+        "under- or overflows), so .atoms, hill.atoms and the listed count must be the float nearest the exact "
+        "rational total - a single leaf's count comes back identical; (iii) every other total (a sum of terms, "
+        "a product of three or more inexact factors) may differ from the exact total by 1e-15 relative = nine "
+        "roundings of 2**-53 (the bound holds at most five per total); whole-number counts may be int or float",
+        "'two formulas with equal atom counts': equal as the library reports them (f.atoms == g.atoms bit for "
+        "bit; an int beyond 2**53 equals no float but its own value).  Members of one class whose totals went through "
+        "different roundings have different counts and are compared with another reference; Hill forms of "
+        "equal .atoms that differ only in the last digits of totals of kind (iii) are not judged (a library that "
+        "totals the Hill form in another order than .atoms is within the statement)",
+        "texts with 17-digit counts are written with repr's digits (the shortest that read back as the same "
+        "float), in plain positional notation where repr uses an exponent (the grammar has none); a parser that "
+        "returns another float for them is C01's subject and the member is left out",
         "a formula's .atoms is part of 'the same atom counts': the statement's counts are the counts of the atoms "
         "the formula is made of, so a formula whose structure (as a nested sequence of (count, atom or sequence), "
         "the documented representation) denotes one composition while .atoms reports another breaks the first "
@@ -209,7 +280,9 @@ META = dict(
                 "its own Hill form and with the parsed string written in that order, on the public table and - for "
                 "the blocks that say so - on two private tables in the same process; nothing is claimed for atoms "
                 "outside the alphabets or larger formulas"),
-    level_note=("trusted: mc.ref.hill (order rules, grouping and nesting generators, own counter, printer), identity of "
+    level_note=("trusted: mc.ref.hill (order rules, grouping and nesting generators, own counter in exact rational "
+                "arithmetic, printer that writes every count with the digits that read back as the same float), "
+                "Python's float(), repr() and fractions.Fraction (correctly rounded / exact), identity of "
                 "atom objects, Formula.structure as the representation of a formula (read only to attribute a wrong count)"),
 )
 
@@ -482,6 +555,9 @@ def _plan(n, tier, entries, block):
     quick = tier == "quick"
     if n <= 2:
         return dict(group="all", arith=True, parse_flat=True, parse_group="all", parse_hill=True)
+    if block == "precise":
+        # n = 3: sums of three terms of one atom, in every order and grouping
+        return dict(group="all", arith=True, parse_flat=True, parse_group=None, parse_hill=True)
     if block == "special":
         # grouping does not reach the sort (the atoms are totalled first) and is the main block's subject
         return dict(group="flat", arith=True, parse_flat=True, parse_group=None, parse_hill=True)
@@ -567,6 +643,18 @@ def _own_count(f):
         return None
 
 
+def _by_id(d):
+    return dict((id(a), c) for a, c in d.items())
+
+
+def _own_exact(f):
+    """{atom: Fraction} of the library's structure of f by the check's own counter, exact; None if unreadable."""
+    try:
+        return R.totals(f.structure)
+    except Exception:
+        return None
+
+
 def _shape(s):
     """Input class of a structure for the signature of a counting defect."""
     try:
@@ -621,7 +709,11 @@ ROUTES = {"dict": "dict-constructor", "dict-reused": "dict-used-before", "copy":
 
 class ClassCheck(object):
     """Runs the oracle over the members of one class."""
-    def __init__(self, E, entries, acc, tables_before=()):
+    def __init__(self, E, entries, acc, tables_before=(), exact=None):
+        """exact: [(token, Fraction total, determined)] where the class is not simply the sum of its entries
+        (a nested tree with counts that are not dyadic); None: the exact totals are the sums of the entries,
+        and a total is determined (= one float, whatever the order of the operations) iff it has one term -
+        the members regroup with multipliers 1, 2 and 0.5 only."""
         self.E, self.entries, self.acc = E, entries, acc
         self.tables_before = list(tables_before)
         self.block, self.tier = "main", "quick"
@@ -629,6 +721,20 @@ class ClassCheck(object):
         for t, c in entries:
             a = E.atom[t]
             self.want[a] = self.want.get(a, 0) + c
+        self.exact_given = exact
+        ex = {}
+        if exact is None:
+            for t, c in entries:
+                a = E.atom[t]
+                rec = ex.setdefault(id(a), [a, Fraction(0), 0])
+                rec[1] += Fraction(c)
+                rec[2] += 1
+            self.exact = [(a, q, n == 1, float(q)) for a, q, n in ex.values()]
+        else:
+            self.exact = [(E.atom[t], Fraction(q), bool(strict), float(q)) for t, q, strict in exact]
+            if sorted(id(a) for a in self.want) != sorted(id(x[0]) for x in self.exact):
+                raise MachineryError("exact totals and entries name different atoms")
+        self.h0_by = {}
         self.h0 = None
         self.h0_spec = None
         self.h0_str = None
@@ -638,8 +744,47 @@ class ClassCheck(object):
         self.distinct_atoms = len(self.want)
 
     def case(self, *specs):
-        return dict(entries=[[t, c] for t, c in self.entries], members=[list(s) for s in specs],
-                    table=self.E.kind, tables_before=self.tables_before, block=self.block, tier=self.tier)
+        d = dict(entries=[[t, c] for t, c in self.entries], members=[list(s) for s in specs],
+                 table=self.E.kind, tables_before=self.tables_before, block=self.block, tier=self.tier)
+        if self.exact_given is not None:
+            d["exact"] = [[t, str(Fraction(q).numerator), str(Fraction(q).denominator), bool(st)]
+                          for t, q, st in self.exact_given]
+        return d
+
+    def _inexact(self, got, ref=None):
+        """The first atom whose count in `got` is not the class's total to the last digit, as
+        (atom, count, exact total, determined), or None.  A count that is bit for bit the count of `ref` (the
+        formula's own .atoms, already judged) is right.  A determined total (one term, at most one rounded
+        multiplication) must be THE float nearest to the exact total; any other total must be within
+        REL_ROUNDING of it (the order of summation / multiplication is the library's business)."""
+        # got, ref: {id(atom): count}
+        for a, q, strict, qf in self.exact:
+            x = got.get(id(a))
+            if x == qf or x is None or not q:
+                continue
+            try:
+                xf = float(x)
+                if ref is not None and id(a) in ref and xf == float(ref[id(a)]):
+                    continue
+                if xf == qf:
+                    continue
+                if strict:
+                    ok = xf == qf
+                else:
+                    ok = abs(Fraction(x) - q) <= q * REL_ROUNDING
+            except (TypeError, ValueError, OverflowError):
+                ok = False
+            if not ok:
+                return a, x, q, strict
+        return None
+
+    def _last_digits(self, bad):
+        a, x, q, strict = bad
+        return ":in-the-last-digits:" + ("total-of-one-term" if strict else "total-up-to-rounding")
+
+    def _digits_text(self, bad):
+        a, x, q, strict = bad
+        return "%s: %r, exact total %r%s" % (a, x, float(q), "" if strict else " (up to 1e-15 relative)")
 
     def want_code(self):
         E = self.E
@@ -707,6 +852,20 @@ class ClassCheck(object):
             self.skipped += 1
             acc.count("members_not_in_class")
             return
+        Ai = _by_id(A)
+        bad = self._inexact(Ai)
+        if bad:
+            # the same question in the last digits: the structure's own exact count decides whose rounding it is
+            S = _own_exact(f)
+            if S is not None and not self._inexact(_by_id(S)):
+                self.viol("atoms-differ-from-structure:%s%s" % (_shape(f.structure), self._last_digits(bad)),
+                          [spec], _show_atoms(self.want), self._digits_text(bad),
+                          asserts=["print(f0.atoms)", "assert %s" % self._exact_assert("f0.atoms", bad)])
+                return
+            self.skipped += 1
+            acc.count("members_not_in_class")
+            acc.count("members_whose_constructor_rounded_a_count")
+            return
         acc.states += 1
         acc.traces += 1
         try:
@@ -731,6 +890,12 @@ class ClassCheck(object):
                       asserts=[self.SAME, "assert same(f0.atoms, %s)" % self.want_code(),
                                "assert same(f0.hill.atoms, f0.atoms)"])
             return
+        bad = self._inexact(_by_id(hA), Ai)
+        if bad:
+            self.viol("hill-atoms-differ" + self._last_digits(bad), [spec],
+                      "%r" % (A[bad[0]],), self._digits_text(bad),
+                      asserts=["print(f0.atoms, f0.hill.atoms)", "assert %s" % self._exact_assert("f0.hill.atoms", bad, A)])
+            return
         key = _typed_key(hs)
         first_time = key not in self.seen
         if first_time:
@@ -750,6 +915,13 @@ class ClassCheck(object):
                           _show_atoms(self.want), repr(hs),
                           asserts=[self.SAME, "assert same(dict((a, c) for c, a in f0.hill.structure), %s)"
                                    % self.want_code()])
+                return
+            badc = self._inexact(_by_id(listed), Ai)
+            if badc:
+                self.viol("hill-lists-other-counts-than-the-formula-has" + self._last_digits(badc), [spec],
+                          "%r" % (A[badc[0]],), self._digits_text(badc),
+                          asserts=["print(f0.atoms, f0.hill.structure)",
+                                   "assert %s" % self._exact_assert("dict((a, c) for c, a in f0.hill.structure)", badc, A)])
                 return
             bad = R.order_violation([E.desc[i] for i in ids])
             if bad:
@@ -775,22 +947,49 @@ class ClassCheck(object):
                           standalone=E.prelude() + "h = %s.hill\nprint(repr(h.structure), repr(h.hill.structure))\n"
                                                "assert h.hill == h\n" % code(E, spec))
                 return
-        # (c) canonicity
-        if self.h0 is None:
-            self.h0, self.h0_spec, self.h0_str = h, spec, str(h)
-            self.h0_order_ok = True
-            acc.outcome("hill-order:" + _order_class(E, hs))
+        # (c) canonicity: 'two formulas with equal atom counts' - equal as the library reports them, bit for
+        # bit (members whose totals went through other roundings have other counts, and another reference)
+        # (a whole-number count beyond 2**53 held as an int is equal to no float but its own)
+        ak = tuple(sorted((id(a), c if isinstance(c, int) else float(c)) for a, c in A.items() if c != 0))
+        ref = self.h0_by.get(ak)
+        if ref is None:
+            self.h0_by[ak] = (h, spec, str(h))
+            if self.h0 is None:
+                self.h0, self.h0_spec, self.h0_str = h, spec, str(h)
+                self.h0_order_ok = True
+                acc.outcome("hill-order:" + _order_class(E, hs))
             return
         if first_time:
-            h0 = self.h0
+            h0, h0_spec, h0_str = ref
             eq = (h == h0) and (h0 == h)
             if not eq:
-                self.viol("canonicity:" + self._why_differs(hs, h0.structure), [self.h0_spec, spec],
-                          "equal Hill forms: %s" % self.h0_str, str(h))
+                why = self._why_differs(hs, h0.structure)
+                if why == "counts" and self._differ_by_rounding_only(hs, h0.structure):
+                    # both lists passed (a'): every count is the formula's own or within the rounding of the
+                    # exact total.  A library that totals the Hill form by another order of operations than
+                    # .atoms is not judged on the last digit of a total that has no single value
+                    acc.count("hill_forms_equal_up_to_the_rounding_of_sums")
+                    return
+                self.viol("canonicity:" + why, [h0_spec, spec], "equal Hill forms: %s" % h0_str, str(h))
                 return
-            if str(h) != self.h0_str:
-                self.viol("canonicity:equal-but-printed-differently", [self.h0_spec, spec], self.h0_str, str(h))
+            if str(h) != h0_str:
+                self.viol("canonicity:equal-but-printed-differently", [h0_spec, spec], h0_str, str(h))
                 return
+
+    def _differ_by_rounding_only(self, s, s0):
+        """Two flat lists over the same atoms in the same order: do they differ only in counts of totals that
+        are not determined (sums, products of three or more inexact factors)?"""
+        loose = set(id(a) for a, q, strict, qf in self.exact if not strict)
+        return all(c == c0 or id(x) in loose for (c, x), (c0, x0) in zip(s, s0))
+
+    def _exact_assert(self, expr, bad, A=None):
+        """Python text: the count of the atom in `expr` is what it has to be."""
+        a, x, q, strict = bad
+        name = self.E.pyname(self.E.first_token[id(a)])
+        want = float(q)
+        if strict:
+            return "%s[%s] == %r" % (expr, name, want)
+        return "abs(%s[%s] - %r) <= 1e-15 * %r" % (expr, name, want, want)
 
     def _cause(self, got, want):
         """Names the kind of composition difference (found by identity of the atoms)."""
@@ -1068,7 +1267,105 @@ def _nested_shard(args):
     return acc
 
 
+# ------------------------------------------------------------------ nested groups, counts that need every digit
+PRECISE_NESTED_SHARDS = {"quick": 16, "thorough": 48}
+BASE_MULTS = (3, 0.5)
+
+
+def precise_trees(tier):
+    """The bound of the block `nested-precise` (META.bound describes it): (family, tree) in a fixed order.
+    one leaf: EVERY assignment of PRECISE + (3,) to the positions (leaf count, multipliers) of a leaf under
+    0..2 groups (0..3 in the thorough tier); more leaves: mc.ref.hill.placements - every PRECISE value at every
+    single position of every bracketing (the other positions hold the leaves' short counts and the baseline
+    multiplier, 3 or 0.5), and all positions at once in eight rotations."""
+    quick = tier == "quick"
+    values = list(PRECISE)
+    for tok in PRECISE_TOKENS:
+        for shape in R.nestings([(tok, 1)], (3,), 2 if quick else 3):
+            for tree in R.cross(shape, values + [3]):
+                if any(c in PRECISE for c in R.counts_of(tree)):
+                    yield "one-leaf", tree
+    fams = [("two-leaves", [("C", 1), ("H", 2)], 3), ("two-leaves-one-atom", [("D", 1), ("D", 2)], 3),
+            ("three-leaves", [("C", 1), ("H", 2), ("C", 0.5)], 2)]
+    if not quick:
+        fams += [("two-leaves-ions", [("Fe[56]{2+}", 2), ("Cl{-}", 0.5)], 3),
+                 ("three-leaves-one-atom", [("D", 1), ("D", 2), ("D", 0.5)], 2),
+                 ("three-leaves-deep", [("C", 1), ("H", 2), ("C", 0.5)], 3)]
+    for name, leaves, depth in fams:
+        for base in BASE_MULTS:
+            if quick and name == "three-leaves" and base != BASE_MULTS[0]:
+                continue             # the quick tier takes the three leaves with the baseline 3 only
+            for shape in R.nestings(leaves, (base,), depth):
+                if name == "three-leaves-deep" and R.depth(shape) != depth:
+                    continue
+                for tree in R.placements(shape, values):
+                    yield name, tree
+
+
+def precise_class(E, tree):
+    """(entries, exact) of a tree: the totals by the check's own exact counter, and whether each is determined."""
+    tot, how = {}, {}
+    for t, q in R.totals(tree).items():
+        k = E.first_token[id(E.atom[t])]
+        tot[k] = tot.get(k, 0) + q
+    for t, (n, inexact) in R.terms(tree).items():
+        k = E.first_token[id(E.atom[t])]
+        rec = how.setdefault(k, [0, 0])
+        rec[0] += n
+        rec[1] = max(rec[1], inexact)
+    exact = [(k, q, how[k][0] == 1 and how[k][1] <= 2) for k, q in tot.items()]
+    return [(k, float(q)) for k, q in tot.items()], exact
+
+
+def check_precise_tree(E, tree, acc, tier):
+    """One tree is one class: its totals are no floats, the next tree has others.  Members: the flat spelling
+    and the dict of the correctly rounded totals, the tree as a nested list, as operators (plain and with every
+    operand observed), as a parsed string; then (e), the string written in the order of the Hill form."""
+    entries, exact = precise_class(E, tree)
+    cc = ClassCheck(E, entries, acc, exact=exact)
+    cc.block, cc.tier = "nested-precise", tier
+    acc.count("classes")
+    acc.count("classes_nested_precise")
+    specs = [["struct", [[c, t] for t, c in entries]], ["dict", [[t, c] for t, c in entries]],
+             ["struct", tree], ["arith", "tree", tree], ["arith", "tree-observed", tree],
+             ["parse", R.text(tree, lambda t: t)]]
+    v, k = acc.vcount, 0
+    for spec in specs:
+        cc.member(spec)
+        k += 1
+        if acc.vcount != v:
+            break
+    if acc.vcount == v:
+        cc.finish()
+    acc.outcome("nesting-depth:%d" % R.depth(tree))
+    acc.outcome("totals-determined:%s" % ("all" if all(st for t, q, st in exact) else
+                                          "none" if not any(st for t, q, st in exact) else "some"))
+    acc.transitions += k
+    if cc.distinct_atoms >= 2:
+        acc.nontrivial += k
+    return cc
+
+
+def _precise_nested_shard(args):
+    tier, idx, nshards = args
+    acc = Acc()
+    E = env("public")
+    for i, (name, tree) in enumerate(precise_trees(tier)):
+        if i % nshards != idx:
+            continue
+        cc = check_precise_tree(E, tree, acc, tier)
+        acc.count("nested_precise_trees_" + name)
+        if cc.skipped:
+            acc.count("classes_with_skipped_members")
+        if i % 2003 == 0:
+            acc.sample(dict(block="nested-precise", family=name, tree=tree, totals=[list(e) for e in cc.entries],
+                            hill=cc.h0_str))
+    return acc
+
+
 def _job(args):
+    if args[0] == "nested-precise":
+        return _precise_nested_shard(args[1:])
     return _nested_shard(args[1:]) if args[0] == "nested" else _shard(args)
 
 
@@ -1078,13 +1375,21 @@ BLOCKS = {
     "tables": (ALPHABET, COUNTS, True),
     "special": (SPECIAL, (1,), True),
     "special-counts": (SPECIAL, COUNTS, True),
+    # counts that need every digit of a float (classes with at least one of them), n <= 2; and n = 3 over
+    # fewer atoms and the three counts whose sums depend on the order of summation
+    "precise": ([TOK[t] for t in PRECISE_TOKENS], PRECISE + COUNTS, False),
+    "precise-sums": ([TOK[t] for t in PRECISE_SUM_TOKENS], PRECISE_SUM_COUNTS, False),
 }
+PLAN_BLOCK = {"special-counts": "special", "precise-sums": "precise"}
 
 
 def classes(n, block="main"):
     alphabet, counts, _ = BLOCKS[block]
     types = [(a[0], c) for a in alphabet for c in counts]
-    return itertools.combinations_with_replacement(types, n)
+    every = itertools.combinations_with_replacement(types, n)
+    if block == "precise":
+        return (e for e in every if any(c in PRECISE for t, c in e))
+    return every
 
 
 def _shard(args):
@@ -1100,7 +1405,7 @@ def _shard(args):
         done = []
         v0 = acc.vcount
         for kind in order:
-            cc = check_class(env(kind), list(entries), acc, tier, "special" if block == "special-counts" else block, done)
+            cc = check_class(env(kind), list(entries), acc, tier, PLAN_BLOCK.get(block, block), done)
             done.append(kind)
             acc.outcome("table:" + kind)
             acc.count("class_table_pairs")
@@ -1117,7 +1422,8 @@ def _shard(args):
 
 
 SHARDS = {"main": {1: 1, 2: 4, 3: 64, 4: 256}, "tables": {1: 1, 2: 12},
-          "special": {1: 1, 2: 2, 3: 24, 4: 192}, "special-counts": {1: 1, 2: 12}}
+          "special": {1: 1, 2: 2, 3: 24, 4: 192}, "special-counts": {1: 1, 2: 12},
+          "precise": {1: 1, 2: 4}, "precise-sums": {3: 2}}
 
 
 def run(ctx):
@@ -1129,12 +1435,19 @@ def run(ctx):
             nsh = SHARDS[block][n]
             for idx in range(nsh):
                 jobs.append((ctx.tier, block, n, idx, nsh))
+    for block in ("precise", "precise-sums"):
+        for n, nsh in sorted(SHARDS[block].items()):
+            for idx in range(nsh):
+                jobs.append((ctx.tier, block, n, idx, nsh))
     for fi, fam in enumerate(nested_families(ctx.tier)):
         for idx in range(fam["shards"]):
             jobs.append(("nested", ctx.tier, fi, idx, fam["shards"]))
+    nsh = PRECISE_NESTED_SHARDS[ctx.tier]
+    for idx in range(nsh):
+        jobs.append(("nested-precise", ctx.tier, idx, nsh))
     jobs = rotate(jobs, ctx.seed)
     # large shards first
-    jobs.sort(key=lambda j: -(2.5 if j[0] == "nested" else j[2]))
+    jobs.sort(key=lambda j: -(2.5 if j[0] in ("nested", "nested-precise") else j[2]))
     ctx.pmap(_job, jobs)
     acc = ctx.acc
     acc.info["max_entries_completed"] = nmax
@@ -1151,7 +1464,10 @@ def replay(ctx, case, signature=None):
         # the history of the run: the same class on the tables that came first (not judged again)
         check_class(env(kind), list(entries), Acc(), tier, block)
     E = env(case.get("table", "public"))
-    cc = ClassCheck(E, entries, ctx.acc, case.get("tables_before", []))
+    exact = None
+    if case.get("exact") is not None:
+        exact = [(t, Fraction(int(n), int(d)), st) for t, n, d, st in case["exact"]]
+    cc = ClassCheck(E, entries, ctx.acc, case.get("tables_before", []), exact=exact)
     cc.block, cc.tier = block, tier
     specs = case["members"]
     if signature and signature.startswith("parsed-in-hill-order"):
